@@ -159,6 +159,14 @@ class StubSim(mosaik_api_v3.Simulator):
         beh = self.spec["beh"]
         k = self.count.get(time, 0)
         self.count[time] = k + 1
+        blk = beh.get("block")
+        if blk and getattr(self, "_node", None) is None:
+            # an in-process simulator that computes for a while *without* yielding to the event
+            # loop: the (virtual) wall clock advances while everything else stands still
+            d = blk[h64(beh["bseed"], self.sid, time, k, "blk") % len(blk)]
+            if d:
+                self.run.loop._vtime += d
+                self.run.probe("blocking_step")
         self.time = time
         self.k = k
         self.idig = digest_inputs(inputs) if beh.get("react") else ""
